@@ -8,6 +8,7 @@ import Vegeta.Proofs.PlotOrder
 import Vegeta.Proofs.PlotSort
 import Vegeta.Proofs.Buckets
 import Vegeta.Proofs.PlotWF
+import Vegeta.Extracted.Facts
 namespace Vegeta.Props.C17
 open Vegeta.Go Vegeta.Model.LTTB Vegeta.Model.Plot
 open Vegeta.Proofs.PlotOrder (Canon specSeries specPts t0 prevOf)
@@ -485,12 +486,43 @@ theorem data_threshold_zero_ok (store : Store) (p : Plot) :
   simp only [hrows]
   exact ⟨_, _, rfl⟩
 
-/-- Inside the store's documented limits the iterator hands back the pushed points: the points
-`Plot.data` works on are the series' points with x converted from ms to seconds. -/
+theorem aux_gaps_shift (bound : Nat) : ∀ (rest : List Nat) (t : Nat),
+    gapsBelow bound (t + 1) (rest.map (· + 1)) = gapsBelow bound t rest := by
+  intro rest
+  induction rest with
+  | nil => intro t; rfl
+  | cons t' rest ih =>
+    intro t
+    simp only [List.map_cons, gapsBelow, ih]
+    have e2 : t' + 1 - (t + 1) = t' - t := by omega
+    rw [e2]
+    simp only [Nat.add_le_add_iff_right]
+
+/-- Inside the store's limits the iterator hands back the pushed points: the points `Plot.data`
+works on are the series' points with x converted from ms to seconds (the shift by one that keeps
+stored time stamps positive cancels). -/
 theorem points_of_lossless_store (store : Store) (hl : Lossless store) (s : TimeSeries)
-    (hd : tszDomain (s.pts.map (·.1)) = true) :
+    (hd : msDomain (s.pts.map (·.1)) = true) :
     seriesPoints store s = s.pts.map (fun (t, v) => ⟨msToSeconds t, v⟩) := by
-  unfold seriesPoints; rw [hl s.pts hd]
+  unfold seriesPoints
+  cases hp : s.pts with
+  | nil => rfl
+  | cons p rest =>
+    simp only [List.isEmpty_cons, Bool.false_eq_true, ↓reduceIte]
+    rw [hp] at hd
+    have hdom : tszDomain (((p :: rest).map shiftUp).map (·.1)) = true := by
+      simp only [List.map_cons, tszDomain, List.map_map]
+      have e : (rest.map ((fun x => x.1) ∘ shiftUp)) = (rest.map (·.1)).map (· + 1) := by
+        simp [List.map_map, shiftUp, Function.comp_def]
+      have e0 : (shiftUp p).1 = p.1 + 1 := rfl
+      rw [e, e0, aux_gaps_shift]
+      simp only [List.map_cons, msDomain] at hd
+      simp [hd]
+    rw [hl _ hdom, List.map_map]
+    apply List.map_congr_left
+    intro x _
+    obtain ⟨t, v⟩ := x
+    simp [shiftUp, unshift]
 
 /-- the rows the property asks for: every point of every series, x in seconds, NaN-padded -/
 def expectedRows (n : Nat) : Nat → List TimeSeries → List (List F64)
@@ -499,7 +531,7 @@ def expectedRows (n : Nat) : Nat → List TimeSeries → List (List F64)
     s.pts.map (fun (tv : Nat × F64) => mkRow n i ⟨msToSeconds tv.1, tv.2⟩) ++ expectedRows n (i+1) rest
 
 theorem aux_seriesRows_zero (store : Store) (hl : Lossless store) (n : Nat) :
-    ∀ (ss : List TimeSeries) (i : Nat), (∀ s ∈ ss, tszDomain (s.pts.map (·.1)) = true) →
+    ∀ (ss : List TimeSeries) (i : Nat), (∀ s ∈ ss, msDomain (s.pts.map (·.1)) = true) →
       seriesRows store 0 n i ss = expectedRows n i ss := by
   intro ss
   induction ss with
@@ -515,8 +547,9 @@ theorem aux_seriesRows_zero (store : Store) (hl : Lossless store) (n : Nat) :
     rfl
 
 /--
-**First sentence of the property, end to end** (threshold 0, i.e. no down-sampling; store inside
-its documented limits): for results presented in any arrival order, `Plot.data` succeeds, its
+**First sentence of the property, end to end** (threshold 0, i.e. no down-sampling; the only
+hypothesis about the store is `msDomain`: consecutive points of one series are less than 2^31 ms
+≈ 24.8 days apart — a series may begin any time after the attack did): for results presented in any arrival order, `Plot.data` succeeds, its
 rows are sorted by x and are — up to the order of rows with equal x — exactly one row per result
 `[seconds since the attack's first request at ms resolution, NaN, …, latency in ms, …, NaN]`,
 the value standing in the column of the result's per-attack OK/ERROR series, the series being
@@ -526,7 +559,7 @@ theorem plot_shows_every_result_once (canon : Bytes → List Result) (rs : List 
     (hc : ∀ a, Canon a (canon a))
     (hperm : ∀ a, (rs.filter (fun r => r.attack == a)).Perm (canon a))
     (store : Store) (hl : Lossless store)
-    (hdom : ∀ a l, tszDomain ((specPts (t0 (canon a)) (canon a) l).map (·.1)) = true) :
+    (hdom : ∀ a l, msDomain ((specPts (t0 (canon a)) (canon a) l).map (·.1)) = true) :
     ∃ p rows labels, Plot.addAll [] rs = .ok p ∧ Plot.data store p 0 = .ok (rows, labels) ∧
       rows.Pairwise (fun a b => rowLt b a = false) ∧
       rows.Perm (expectedRows (allSeries p).length 0 (allSeries p)) ∧
@@ -557,11 +590,37 @@ theorem plot_shows_every_result_once (canon : Bytes → List Result) (rs : List 
     rw [hs']
     exact hdom a l
 
+/-! ### source facts binding the store model to lib/plot/timeseries.go (regenerated every run) -/
+
+/-- `timeSeries.add` creates the store lazily from the first time stamp
+(`if ts.data == nil { ts.data = tsz.New(t + 1) }`, the only `tsz.New` of the file, not in
+`newTimeSeries`) and then pushes the shifted time stamp (`ts.data.Push(t+1, v)`, once) — what
+`seriesPoints`/`shiftUp` model and what makes the store's 27-bit first delta zero. -/
+theorem facts_add_creates_store_at_first_point :
+    Vegeta.Extracted.c17AddCreatesWhenNil = true ∧
+    Vegeta.Extracted.c17TszNewArg = [116, 32, 43, 32, 49] ∧                 -- "t + 1"
+    Vegeta.Extracted.c17PushCount = 1 ∧
+    Vegeta.Extracted.c17PushArgs = [[116, 32, 43, 32, 49], [118]] ∧        -- "t + 1", "v"
+    Vegeta.Extracted.c17CreateBeforePush = true ∧
+    Vegeta.Extracted.c17NewTimeSeriesCreatesStore = false ∧
+    Vegeta.Extracted.c17TszNewCalls = 1 := by decide
+
+/-- `timeSeries.iter` returns nothing for a series without store and decodes
+`X = time.Duration((t - 1) * 1e6).Seconds()` — the un-shift modelled by `unshift`. -/
+theorem facts_iter_unshifts :
+    Vegeta.Extracted.c17IterNilGuard = true ∧
+    Vegeta.Extracted.c17IterXExpr =
+      [116, 105, 109, 101, 46, 68, 117, 114, 97, 116, 105, 111, 110, 40, 40, 116, 32, 45, 32, 49, 41,
+       32, 42, 32, 49, 101, 54, 41, 46, 83, 101, 99, 111, 110, 100, 115, 40, 41] := by decide
+
 example : Lossless (id : Store) := fun _ _ => rfl
-example : tszDomain [0, 0, 5, 10, 4000000] = true := by decide
-/-- where the assumption stops: a series whose first point lies 38 h after the attack's first
-request (136 800 000 ms ≥ 2^27 − 1) is outside the store's limits — the real plot misplaces it. -/
-example : tszDomain [136800000, 136801000] = false := by decide
+example : msDomain [0, 0, 5, 10, 4000000] = true := by decide
+/-- a series may begin 38 h after the attack's first request, and its second point may lie 38 h
+after a first point at 0 ms (both were outside the limits of the store before the repair of
+`timeSeries.add`) -/
+example : msDomain [136800000, 136801000] = true ∧ msDomain [0, 136800000] = true := by decide
+/-- where the assumption stops: two consecutive points of a series 2^31 ms (24.8 days) apart -/
+example : msDomain [5, 2147483653] = false := by decide
 
 /-! non-vacuity: two attacks, results arriving out of order -/
 def exA : Bytes := [97]
@@ -635,7 +694,7 @@ example : (∀ a, Canon a (exCanon a)) ∧
         rw [this]
 
 /-- … and so does the store-limit hypothesis of `plot_shows_every_result_once` -/
-example : ∀ a l, tszDomain ((specPts (t0 (exCanon a)) (exCanon a) l).map (·.1)) = true := by
+example : ∀ a l, msDomain ((specPts (t0 (exCanon a)) (exCanon a) l).map (·.1)) = true := by
   intro a l
   by_cases h1 : l = labelOK
   · subst h1
@@ -657,10 +716,10 @@ example : ∀ a l, tszDomain ((specPts (t0 (exCanon a)) (exCanon a) l).map (·.1
       have e2 : (labelERROR == l) = false := by simp; exact fun e => h2 e.symm
       unfold exCanon
       split
-      · simp [specPts, e1, e2, tszDomain]
+      · simp [specPts, e1, e2, msDomain]
       · split
-        · simp [specPts, e1, tszDomain]
-        · simp [specPts, tszDomain]
+        · simp [specPts, e1, msDomain]
+        · simp [specPts, msDomain]
 
 example : (Plot.addAll [] exArrival).isOk = true := by decide +kernel
 example : (match Plot.addAll [] exArrival with
